@@ -226,7 +226,17 @@ class C15:
         origin_terms = [("sub", ("attr", ("attr", ("param", "audio"), "time"), "data"), ("const", 0)),
                         ("sub", ("attr", ("sub", ("attr", ("param", "audio"), "coords"), ("const", "time")), "data"), ("const", 0))]
         ok_origin = arr0 is not None and arr0[0] == "bin" and arr0[1] == "+" and ((arr0[2] == times and arr0[3] in origin_terms) or (arr0[3] == times and arr0[2] in origin_terms))
-        if ok_origin:
+        # scipy's times start at 0 only because the signal is extended by half a window at both ends (boundary is not None):
+        # the caller's own `boundary` must reach stft unchanged (or a fixed extension mode), never be replaced by None
+        bnd = kw.get("boundary", ("const", "zeros"))
+        bparam = ("param", "boundary") if "boundary" in s.params else None
+        ok_boundary = bnd == bparam or (bnd[0] == "const" and bnd[1] in ("zeros", "even", "odd", "constant"))
+        if ok_origin and not ok_boundary:
+            ctx.bad("R15.4", file, "compute_spectrogram", f"stft(boundary={show(bnd)[:60]})",
+                    f"stft receives boundary={show(bnd)[:80]} instead of the caller's `boundary`: when it is None scipy does not extend the "
+                    "signal and its first time is half a window (nperseg / 2 / samplerate), so `times + audio.time.data[0]` no longer "
+                    "starts at the source's start", st[0].lineno, witness={"padded": False, "first_time": "start + nperseg / (2 * samplerate)"})
+        elif ok_origin:
             ctx.ok("R15.4", site, "time coordinates = stft times + the source's first time")
         else:
             ctx.bad("R15.4", file, "compute_spectrogram", f"time coordinates = {show(arr0)[:60] if arr0 else '-'}",
